@@ -5,6 +5,8 @@ For every site where a mutable bookkeeping object sits behind `state_dict()` / `
   weighted   MultiNodeWeightedSampler._datasets_exhausted      <->  sd["datasets_exhausted"]
   unbatcher  Unbatcher._cached_state_dict                      <->  sd["source"]
   prefetch   Prefetcher._it._snapshot (_SingleThreadedMapper)  <->  sd["snapshot"]  (threads under the virtual scheduler)
+  sdl_sp     StatefulDataLoader(num_workers=0): the dataset's live, in-place mutated state (user dataset returning its
+             own list from state_dict(), copying on load)          <->  sd["dataset_state"]["buf"]
   pmapper    ParallelMapper._it._snapshot (_ParallelMapperIter, thread workers) <-> sd[...]["snapshot"]
 
 a random history of next / reset() / state_dict() / reset(dict the user holds) / deepcopy-of-a-held-dict is run on the
@@ -41,7 +43,31 @@ THEOREMS = [
     "TDV.Alias.get_returns_content",
 ]
 LEAN_MODULES = ["TorchDataVerif.Props.C08"]
-SITES = ["weighted", "unbatcher", "prefetch", "pmapper"]
+SITES = ["weighted", "unbatcher", "prefetch", "pmapper", "sdl_sp"]
+
+
+class _SDLAdapter:
+    """StatefulDataLoader (num_workers=0) over a dataset whose state_dict() returns its LIVE, in-place mutated bookkeeping
+    (harness.sdl.IterDsState(inplace=True)) behind the node interface used by run_real: reset() = a new iter(),
+    reset(sd) = load_state_dict(sd) + iter()."""
+
+    def __init__(self, case):
+        from .. import sdl
+        self.loader = sdl.build({"kind": "iter_inplace", "sizes": [case["n"]], "W": 0, "bs": case["bsz"],
+                                 "interval": case["freq"]})
+        self.ds = self.loader.dataset
+        self.it = None
+
+    def reset(self, sd=None):
+        if sd is not None:
+            self.loader.load_state_dict(sd)
+        self.it = iter(self.loader)
+
+    def __next__(self):
+        return next(self.it)
+
+    def state_dict(self):
+        return self.loader.state_dict()
 
 
 def canon(x) -> str:
@@ -56,6 +82,8 @@ def build_site(case) -> Tuple[Any, Any, Any]:
     from torchdata.nodes import Batcher, IterableWrapper, MultiNodeWeightedSampler, ParallelMapper, Prefetcher, Unbatcher
     from torchdata.nodes.samplers.stop_criteria import StopCriteria
     site = case["site"]
+    if site == "sdl_sp":
+        return _SDLAdapter(case), (lambda a: a.ds.buf), (lambda sd: sd["dataset_state"]["buf"])
     if site == "weighted":
         lens = case["lens"]
         crit = getattr(StopCriteria, case["crit"])
@@ -94,6 +122,7 @@ def gen_case(rng: random.Random, i: int) -> Dict[str, Any]:
         case["pf"] = rng.randrange(1, 4)
         case["nw"] = rng.randrange(1, 3)
         case["freq"] = rng.randrange(1, 4)
+        case["bsz"] = rng.choice([None, 1, 2, 3])
     ops: List[List[Any]] = []
     held = 0
     for _ in range(rng.randrange(6, 22)):
